@@ -1,5 +1,8 @@
 """C01 — save then load reproduces the value, in every archive and output configuration."""
 from .docgen import TARGETS
+from .C08 import gen_c01_jsonxml, extra_checks_jsonxml
+
+OP_TIMEOUT = 20.0
 
 THEOREMS = [
     "BSVerif.Props.C01.saved_tree_is_one_value",
@@ -14,6 +17,9 @@ THEOREMS = [
     "BSVerif.Props.C16.int_roundtrip",
     "BSVerif.Props.C16.bool_roundtrip",
     "BSVerif.Props.C10.history_refines",
+    "BSVerif.Props.C08.load_build_roundtrip",
+    "BSVerif.Props.C08.save_then_load",
+    "BSVerif.Props.C08.dom_of_save",
 ]
 RULE = ("save -> load round trips through the real archives: 9 target shapes (root scalar, string, vector, vector of strings, nested vector, "
         "map, nested class with optional/map/vector/double/bool, vector of classes, CSV rows) x MsgPack/JSON/XML/CSV x {memory, stream}, values "
@@ -38,4 +44,9 @@ def gen(tier, rng, boost=1):
             for _ in range(n):
                 for src in ("mem", "stream"):
                     ops.append(f"rt.any {archive} {src} {target} {rng.randrange(1, 2 ** 31)}")
+    ops += gen_c01_jsonxml(tier, rng, boost)
     return ops
+
+
+def extra_checks(ops, impl, res, known_classes, known_hits):
+    return list(extra_checks_jsonxml(ops, impl, res, known_classes, known_hits) or [])
